@@ -83,6 +83,22 @@ func RunBubble(t *testing.T, r *vkit.Run, idx int, o Opts, nontrivial func(*Sim)
 				// the collector is between its lock-free scan and its write transaction: change the table under it
 				s.gcPauses++
 				s.Logf("collector paused at gc.afterScan")
+				if s.Rng.IntN(3) == 0 {
+					// bring back every object that was ever deleted and is absent now: whatever the collector saw in its
+					// scan is no longer dead when it gets its write transaction (it must still finish that transaction)
+					for _, t := range s.Tabs {
+						seen := map[string]bool{}
+						for _, d := range t.delLog {
+							if _, live := t.committed.Objs[d.ID]; !live && !seen[d.ID] && !s.Failed {
+								seen[d.ID] = true
+								s.forceSet, s.forced = []*simTable{t}, &forcedOp{0, []byte(d.ID)}
+								s.RunTxn(9000 + i*20 + len(seen))
+								s.forceSet, s.forced = nil, nil
+								s.resurrections++
+							}
+						}
+					}
+				}
 				for k := 0; k < 1+s.Rng.IntN(3) && !s.Failed; k++ {
 					step(1000 + i*10 + k)
 				}
